@@ -178,15 +178,15 @@ type facadeLRU struct{ c cache.LRUFacade }
 func (b facadeLRU) do(op lruOp) (o lruOut) {
 	switch op.Op {
 	case "set":
-		b.c.Set(op.Key, V{op.ID, op.Sz})
+		b.c.Set(hx.KeyOf(op.Key), V{op.ID, op.Sz})
 	case "get":
-		o.ID, o.Ok = vid(b.c.Get(op.Key))
+		o.ID, o.Ok = vid(b.c.Get(hx.KeyOf(op.Key)))
 	case "peek":
-		o.ID, o.Ok = vid(b.c.Peek(op.Key))
+		o.ID, o.Ok = vid(b.c.Peek(hx.KeyOf(op.Key)))
 	case "exist":
-		o.Ok = b.c.Exist(op.Key)
+		o.Ok = b.c.Exist(hx.KeyOf(op.Key))
 	case "del":
-		o.Ok = b.c.Delete(op.Key)
+		o.Ok = b.c.Delete(hx.KeyOf(op.Key))
 	}
 	return
 }
@@ -196,15 +196,15 @@ type facadeTiny struct{ c tiny.LRU }
 func (b facadeTiny) do(op lruOp) (o lruOut) {
 	switch op.Op {
 	case "set":
-		b.c.Set(op.Key, V{op.ID, op.Sz})
+		b.c.Set(hx.KeyOf(op.Key), V{op.ID, op.Sz})
 	case "get":
-		o.ID, o.Ok = tid(b.c.Get(op.Key))
+		o.ID, o.Ok = tid(b.c.Get(hx.KeyOf(op.Key)))
 	case "peek":
-		o.ID, o.Ok = tid(b.c.Peek(op.Key))
+		o.ID, o.Ok = tid(b.c.Peek(hx.KeyOf(op.Key)))
 	case "exist":
-		o.Ok = b.c.Exist(op.Key)
+		o.Ok = b.c.Exist(hx.KeyOf(op.Key))
 	case "del":
-		o.Ok = b.c.Delete(op.Key)
+		o.Ok = b.c.Delete(hx.KeyOf(op.Key))
 	}
 	return
 }
@@ -435,11 +435,11 @@ func runC04(t *testing.T, sci interface{}, keepLog bool) *hx.Outcome {
 	perShard := sc.Cap
 	switch sc.Target {
 	case "wide", "tinywide":
-		route = func(k int) int { return rm.SimpleIndex(k) }
+		route = func(k int) int { return rm.SimpleIndex(hx.KeyOf(k)) }
 		nshards = int(sc.Prime)
 		perShard = sc.Cap/int64(sc.Prime) + 1 // documented per-shard capacity (assumption recorded in the evidence)
 	case "widex", "tinywidex":
-		route = func(k int) int { return rm.XHashIndex(k) }
+		route = func(k int) int { return rm.XHashIndex(hx.KeyOf(k)) }
 		nshards = int(sc.Prime)
 		perShard = sc.Cap/int64(sc.Prime) + 1
 	}
